@@ -826,7 +826,8 @@ void DOMLSSerializerImpl::processNode(const DOMNode* const nodeToWrite, int leve
                             namespaceMap=new (fMemoryManager) RefHashTableOf<XMLCh>(12, false, fMemoryManager);
                             fNamespaceStack->addElement(namespaceMap);
                         }
-                        namespaceMap->put((void*)prefix,(XMLCh*)uri);
+                        // a null value would read as "not declared here" in isNamespaceBindingActive
+                        namespaceMap->put((void*)prefix,(XMLCh*)(uri ? uri : XMLUni::fgZeroLenString));
                         *fFormatter  << XMLFormatter::NoEscapes
                                      << chSpace << XMLUni::fgXMLNSString;
                         if(!XMLString::equals(prefix,XMLUni::fgZeroLenString))
@@ -888,7 +889,7 @@ void DOMLSSerializerImpl::processNode(const DOMNode* const nodeToWrite, int leve
                                 nsPrefix = XMLUni::fgZeroLenString;
                             if(namespaceMap->containsKey((void*)nsPrefix))
                                 continue;
-                            namespaceMap->put((void*)attribute->getLocalName(),(XMLCh*)attribute->getNodeValue());
+                            namespaceMap->put((void*)nsPrefix,(XMLCh*)attribute->getNodeValue());
                         }
                         else if(!XMLString::equals(ns, XMLUni::fgXMLURIName))
                         {
